@@ -12,7 +12,7 @@ from qsim import plan as P
 from qsim.core import Run
 
 PROP = "C05"
-QUICK_RUNS = 20000
+QUICK_RUNS = 6000
 THOROUGH_WAVE = 8000
 RULE = (
     "one case = one model (type, n_v<=4, n_h<=4, n_a<=3, parameter scale up to 30, all biases non-zero) and a "
@@ -33,6 +33,7 @@ ASSUMPTIONS = [
 ]
 
 KS = [0, 1, 1, 1, 2, 2, 2, 3, 3, 5, 8, 11, 16]
+KS_LONG = [33, 65, 100, 320]  # the tutorials sample with k = 100
 BIGK = 10 ** 9
 
 
@@ -47,7 +48,7 @@ def generate(seed, tier):
         if m < 0.08 and j > 0:
             ops.append({"op": "reparam", "pseed": P.s64(r), "scale": r.choice([0.1, 1.0, 5.0, 30.0])})
             continue
-        k = r.choice(KS)
+        k = r.choice(KS) if r.random() > 0.03 else r.choice(KS_LONG)
         prev = [i for i, o in enumerate(ops) if o["op"] == "sample"]
         sk = r.random()
         if sk < 0.3 or (sk < 0.55 and not prev):
@@ -373,8 +374,8 @@ def execute(plan):
                     run.inconclusive["rule2_structure"] += 1
                     verdict = "s"
                 # ---- rule 5: law check (thorough / fallback) ----------------------
-                if (op.get("law") or verdict == "s") and k >= 0 and res is not None:
-                    M = 20000
+                if (op.get("law") or verdict == "s" or k > 16) and k >= 0 and res is not None:
+                    M = 20000 if k <= 16 else 6000
                     if kind == "fresh":
                         s_rows = np.zeros((1, nv))
                     else:
